@@ -11,6 +11,7 @@ import io
 import os
 import signal
 import struct
+import sys
 import tempfile
 import zipfile
 
@@ -109,6 +110,24 @@ def call_entry(ep, data, mode, ctx):
                 fh0 = io.BytesIO(data)
                 name = ep[: -len(":none")]
                 res = list(artifact.iter_artifactkit_payloads(fh0, start_offset=None)) if name == "artifactkit" else getattr(pe, name)(fh0, start_offset=None)
+            elif ep.endswith(":mmap"):
+                # a memory-mapped file refuses to seek beyond its end (ValueError) where other files just read nothing
+                import mmap
+
+                name = ep[: -len(":mmap")]
+                if not data:
+                    res = getattr(pe, name)(io.BytesIO(data)) if name != "from_file" else None
+                else:
+                    mm = mmap.mmap(-1, len(data))
+                    mm.write(data)
+                    mm.seek(0)
+                    try:
+                        res = beacon.BeaconConfig.from_file(mm) if name == "from_file" else getattr(pe, name)(mm)
+                    finally:
+                        try:
+                            mm.close()
+                        except BufferError:
+                            pass
             elif ep.endswith(":file"):
                 # the same helpers on a regular file (positions beyond what the file system supports, allocation of the
                 # requested read size): a 2 GiB address-space limit makes an attempt to allocate a claimed 4 GiB visible
@@ -130,6 +149,8 @@ def call_entry(ep, data, mode, ctx):
         ctx.maximum("back_edges_per_byte_in_one_activation", round(b.maxact / max(1, len(data)), 3))
     except ValueError:
         if ep in ("from_bytes", "from_file", "from_path", "xordecode", "parse_raw_http"):
+            return None
+        if ep == "from_file:mmap" and "No valid Beacon configuration found" in str(sys.exc_info()[1]):
             return None
         if ep == "iter_blocks":
             return "exception.class", "iter_beacon_config_blocks raised ValueError; it documents yielding zero or more blocks"
@@ -154,6 +175,10 @@ def call_entry(ep, data, mode, ctx):
         ep = ep[: -len(":file")]
     if ep.endswith(":none"):
         ep = ep[: -len(":none")]
+    if ep.endswith(":mmap"):
+        ep = ep[: -len(":mmap")]
+        if ep == "from_file" and res is None:
+            return None
     if ep in ("from_bytes", "from_file", "from_path"):
         ok = isinstance(res, beacon.BeaconConfig) and isinstance(res.config_block, bytes) and isinstance(res.settings_tuple, tuple)
     elif ep == "xordecode":
@@ -504,6 +529,16 @@ def run_shard(shard, ctx):
             for pre in (b"", b"\x90" * 7, P.filler(rng, 300)):
                 for ep in ("find_mz_offset", "find_architecture", "find_compile_stamps", "find_magic_mz", "find_magic_pe", "find_stage_prepend_append", "artifactkit"):
                     check_case({"data": pre + img + b"tail", "seed_kind": "crafted-pe", "fault": f"none:start_offset=None,prepend={len(pre)}", "calls": [(ep + ":none", "default")]}, ctx)
+        # small memory-mapped payloads: a block in fewer than 1024 bytes, helpers on short images
+        for n in (30, 300, 600, 1000, 1044, 2100):
+            blk = P.rx1((tlv.short(1, 8) + tlv.short(2, 443)).ljust(30, b"\0"), 0x2E)
+            data = P.filler(rng, max(n - len(blk), 0)) + blk
+            check_case({"data": data, "seed_kind": "crafted-mmap", "fault": f"mmap,{n} bytes", "calls": [("from_file:mmap", "default")]}, ctx)
+        for arch in ("x86", "x64"):
+            img, info = P.build_pe(rng, arch=arch, nsec=1)
+            for cut in (70, 200, info["lfanew"] + 10, info["lfanew"] + 30, 900, 1500):
+                for ep in ("find_mz_offset", "find_architecture", "find_compile_stamps", "find_magic_mz", "find_magic_pe", "find_stage_prepend_append"):
+                    check_case({"data": img[:cut], "seed_kind": "crafted-mmap", "fault": f"mmap,truncate@{cut}", "calls": [(ep + ":mmap", "default")]}, ctx)
         # claimed sizes that only a regular file takes at face value
         for arch in ("x86", "x64"):
             img, info = P.build_pe(rng, arch=arch, nsec=2)
